@@ -24,11 +24,22 @@ def hook_lost(e):
     """The harness reaches a few INTERNAL names of the library (find_checker, the re-computation visitor, inspect_decorator,
     ...).  When one of them is gone - renamed or moved by a rewrite that may be perfectly harmless - the implementation side
     of the correspondence cannot run: that is a correspondence which no longer checks, not an observation about behaviour."""
+    msg = str(e)
     if isinstance(e, (AttributeError, ImportError)):
-        msg = str(e)
         if "module 'icontract" in msg or "from 'icontract" in msg or "No module named 'icontract" in msg:
             return msg
+    if isinstance(e, TypeError):
+        # an internal function which the harness itself calls got another signature
+        import re
+        m = re.match(r"(?:\w+\.)*(\w+)\(\) (?:got an unexpected keyword|got multiple values|missing \d+ required|takes )", msg)
+        if m and m.group(1) in HOOKS:
+            return msg
     return None
+
+
+HOOKS = {"find_checker", "select_condition_kwargs", "select_capture_kwargs", "generate_message", "_register_for_hypothesis",
+         "inspect_decorator", "decorate_with_checker", "add_precondition_to_checker", "add_postcondition_to_checker",
+         "add_snapshot_to_checker", "Visitor", "Old"}
 
 
 def _run_impl_guarded(P, case):
